@@ -1394,6 +1394,26 @@ pub fn gen_names(m: &MSpec, rng: &mut Rng) -> NameSpec {
             n.datas.push((i, format!("$data_{}", i)));
         }
     }
+    // stale entries of every other kind (an index past the last entity): each names nothing and must not cost
+    // any other name; subsections walrus does not interpret
+    if rng.chance(1, 3) {
+        let counts = [nf, m.types.len() as u32, m.all_tables().len() as u32, m.all_memories().len() as u32, m.all_globals().len() as u32, m.elems.len() as u32, m.datas.len() as u32];
+        for (k, map) in [&mut n.funcs, &mut n.types, &mut n.tables, &mut n.memories, &mut n.globals, &mut n.elems, &mut n.datas].into_iter().enumerate() {
+            if rng.chance(1, 3) {
+                let at = rng.usize(map.len() + 1);
+                map.insert(at, (counts[k] + 1 + rng.below(5) as u32, format!("$stale_kind{}", k)));
+            }
+        }
+        if rng.chance(1, 3) {
+            n.fields.push((0, vec![(0, "$field".to_string())]));
+        }
+        if rng.chance(1, 3) {
+            n.tags.push((0, "$tag".to_string()));
+        }
+        if rng.chance(1, 3) {
+            n.unknown = Some((rng.range(12, 100) as u8, (0..rng.below(6)).map(|_| rng.next() as u8).collect()));
+        }
+    }
     n
 }
 
